@@ -85,24 +85,26 @@ Theorem C04_sparse_subs_admissible : forall (S : sparse V) rows (r : rhs V) s' a
   exists S', step_sparse v0 isz S (OSet (KSubs rows) r) = Some (S', ([], [])).
 Proof. exact (sparse_subs_admissible v0 isz). Qed.
 
-(* sptensor region read as pyttb computes it (subdims filter + tt_renumber, model sp_region_get): the result has the shape of
-   the kept modes, every region position has a renumbered subscript, and the result holds there what the tensor holds *)
+(* sptensor region read (model sp_region_get: subdims filter, then every stored entry is placed at EVERY result subscript whose
+   indices select it - a key list may REPEAT an index, wave 3b).  The result has the shape of the kept modes and holds at
+   EVERY subscript j inside that shape what the tensor holds at the position j selects (select ls j: mode by mode the
+   j-th element of the index list, the single index of a dropped mode) *)
 Theorem C04_sparse_region_read : forall (S R : sparse V) es ls,
   region_lists (sshape S) es = Some ls -> sp_region_get S es = Some R ->
   sshape R = kept_shape ls /\
-  (forall p, In p (cartF (map snd ls)) -> exists j, renumber ls p = Some j) /\
-  (forall p j, renumber ls p = Some j -> den_sp v0 R j = den_sp v0 S p).
+  (forall j, inb (kept_shape ls) j = true -> den_sp v0 R j = den_sp v0 S (select ls j)).
 Proof. exact (sp_region_get_den v0). Qed.
 (* ---- wave 2 ---- *)
 (* the sptensor returned by a region read is itself well-formed (in bounds of the kept shape, no duplicate subscript, no stored
-   zero, |subs| = |vals|), whatever the stored order of the source, and stores exactly the source entries inside the region *)
+   zero, |subs| = |vals|), whatever the stored order of the source and however often a key list repeats an index, and stores
+   one entry per (stored source entry, result subscript selecting it) *)
 Theorem C04_sparse_region_read_wf : forall (S R : sparse V) es,
   wf_sp isz S -> sp_region_get S es = Some R -> wf_sp isz R.
 Proof. exact (sp_region_get_wf isz). Qed.
 
 Theorem C04_sparse_region_read_nnz : forall (S R : sparse V) es ls,
   region_lists (sshape S) es = Some ls -> sp_region_get S es = Some R ->
-  length (ssubs R) = length (filter (fun e : idx * V => match renumber ls (fst e) with Some _ => true | None => false end) (entries S)).
+  length (ssubs R) = list_sum (map (fun e : idx * V => length (renumber_all ls (fst e))) (entries S)).
 Proof. exact sp_region_get_nnz. Qed.
 
 (* the decidable side conditions of the sparse model (positions pairwise distinct, padded old subscripts inside the grown shape)
@@ -177,6 +179,13 @@ Theorem C04_sptenmat_history_total : forall ops (S : sparse V) a a' outs,
 Proof. exact (sptenmat_history_total v0 isz isz_spec). Qed.
 End C04.
 
+(* key lists WITHOUT a repeated index: every stored entry inside the region lands on exactly one result subscript, the
+   positions of its indices inside the lists (renumber / index_of: the filter + tt_renumber reading of pyttb) *)
+Theorem C04_region_read_single_position : forall ls p,
+  Forall (fun x : bool * list nat => NoDup (snd x)) ls ->
+  renumber_all ls p = match renumber ls p with Some j => [j] | None => [] end.
+Proof. exact (fun ls p H => renumber_all_nodup_lists ls H p). Qed.
+
 (* slices never address a position twice (Python slice semantics, any bounds and any non-zero step) *)
 Theorem C04_slice_positions_distinct : forall len a b c, NoDup (py_slice len a b c).
 Proof. exact py_slice_nodup. Qed.
@@ -205,6 +214,7 @@ Print Assumptions C04_sparse_subs_admissible.
 Print Assumptions C04_sparse_region_read.
 Print Assumptions C04_sparse_region_read_wf.
 Print Assumptions C04_sparse_region_read_nnz.
+Print Assumptions C04_region_read_single_position.
 Print Assumptions C04_sparse_region_admissible.
 Print Assumptions C04_refine_sparse_total.
 Print Assumptions C04_history_sparse_total.
@@ -268,4 +278,15 @@ Example C04_example_sptenmat :
   fixed_step_sparse_g 0 (Z.eqb 0) ex_S (OSet (KRegion [KInt 2; KInt 0]) (RScalar 1)) = None /\
   option_map fst (fixed_step_dense_g 0 ex_T (OSet (KRegion [KList [1; 1]; KSlice None None None]) (RValues [5; 6; 7; 8; 9; 4]))) =
     Some (mkDense [2; 3]%nat [2; 6; 0; 8; 3; 4]).
+Proof. repeat split; vm_compute; reflexivity. Qed.
+
+(* wave 3b non-vacuity: a region read through a key list that REPEATS an index (the C04-N11 witness: 3x2 tensor storing
+   (1,0)=3, (0,1)=4, (2,1)=5 out of order; S[[1,1], :]) returns the row twice, well-formed; every stored entry once per position *)
+Definition ex_S32 : sparse Z := mkSp [3; 2]%nat [[1; 0]; [0; 1]; [2; 1]]%nat [3; 4; 5].
+Example C04_example_region_read_repeated :
+  sp_region_get ex_S32 [KList [1; 1]; KSlice None None None] = Some (mkSp [2; 2]%nat [[0; 0]; [1; 0]]%nat [3; 3]) /\
+  option_map (full 0) (sp_region_get ex_S32 [KList [1; 1]; KSlice None None None]) = Some (mkDense [2; 2]%nat [3; 3; 0; 0]) /\
+  option_map (fun x => snd (snd x)) (step_dense 0 (full 0 ex_S32) (OGet (KRegion [KList [1; 1]; KSlice None None None]))) = Some [3; 3; 0; 0] /\
+  option_map (wf_spb (Z.eqb 0)) (sp_region_get ex_S32 [KList [2; 0; 2]; KList [1; 1]]) = Some true /\
+  option_map (full 0) (sp_region_get ex_S32 [KList [2; 0; 2]; KList [1; 1]]) = Some (mkDense [3; 2]%nat [5; 4; 5; 5; 4; 5]).
 Proof. repeat split; vm_compute; reflexivity. Qed.
